@@ -703,26 +703,26 @@ func (w *world) step(st J) J {
 			}
 		case "setalg":
 			// caller edits the parsed protected map (retained raw bytes, if any, stay)
-			if o, ok := w.objs[name].(*cose.Sign1Message); ok {
-				if o.Headers.Protected == nil {
-					o.Headers.Protected = cose.ProtectedHeader{}
+			if h := headersPtr(w.objs[name]); h != nil {
+				if h.Protected == nil {
+					h.Protected = cose.ProtectedHeader{}
 				}
 				if st["absent"] == true {
-					delete(o.Headers.Protected, cose.HeaderLabelAlgorithm)
+					delete(h.Protected, cose.HeaderLabelAlgorithm)
 				} else {
-					o.Headers.Protected[cose.HeaderLabelAlgorithm] = cose.Algorithm(num(st["alg"]))
+					h.Protected[cose.HeaderLabelAlgorithm] = cose.Algorithm(num(st["alg"]))
 				}
 			}
 		case "setkid":
-			if o, ok := w.objs[name].(*cose.Sign1Message); ok {
-				if o.Headers.Unprotected == nil {
-					o.Headers.Unprotected = cose.UnprotectedHeader{}
+			if h := headersPtr(w.objs[name]); h != nil {
+				if h.Unprotected == nil {
+					h.Unprotected = cose.UnprotectedHeader{}
 				}
-				o.Headers.Unprotected[cose.HeaderLabelKeyID] = bytesOf(st["kid"])
+				h.Unprotected[cose.HeaderLabelKeyID] = bytesOf(st["kid"])
 			}
 		case "clearraw":
-			if o, ok := w.objs[name].(*cose.Sign1Message); ok {
-				o.Headers.RawProtected, o.Headers.RawUnprotected = nil, nil
+			if h := headersPtr(w.objs[name]); h != nil {
+				h.RawProtected, h.RawUnprotected = nil, nil
 			}
 		case "rewire":
 			// the environment rewrites one element of the COSE_Sign1 array held in a buffer (bytes in transit)
@@ -783,11 +783,17 @@ func init() {
 // rewire replaces element idx of a tagged COSE_Sign1 array by the given raw encoding ("elem"), or re-spells the
 // length prefix of a bstr element at the given width ("width": 0 = shortest, 1, 2, 4, 8).
 func rewire(b []byte, idx int, st J) ([]byte, bool) {
-	if len(b) < 2 || b[0] != 0xd2 || b[1] != 0x84 {
+	var prefix []byte
+	switch {
+	case len(b) >= 2 && b[0] == 0xd2 && b[1] == 0x84:
+		prefix = []byte{0xd2, 0x84}
+	case len(b) >= 1 && (b[0] == 0x84 || b[0] == 0x83):
+		prefix = []byte{b[0]}
+	default:
 		return nil, false
 	}
 	var elems []cbor.RawMessage
-	if err := cbor.Unmarshal(b[1:], &elems); err != nil || len(elems) != 4 {
+	if err := cbor.Unmarshal(b[len(prefix)-1:], &elems); err != nil || len(elems) != int(prefix[len(prefix)-1]&0x1f) {
 		return nil, false
 	}
 	if e, ok := st["elem"]; ok {
@@ -814,9 +820,25 @@ func rewire(b []byte, idx int, st J) ([]byte, bool) {
 		}
 		elems[idx] = append(append([]byte{}, head...), content...)
 	}
-	out := []byte{0xd2, 0x84}
+	out := append([]byte{}, prefix...)
 	for _, e := range elems {
 		out = append(out, e...)
 	}
 	return out, true
+}
+
+func headersPtr(o any) *cose.Headers {
+	switch v := o.(type) {
+	case *cose.Sign1Message:
+		return &v.Headers
+	case *cose.UntaggedSign1Message:
+		return &v.Headers
+	case *cose.SignMessage:
+		return &v.Headers
+	case *cose.Signature:
+		return &v.Headers
+	case *cose.Countersignature:
+		return &v.Headers
+	}
+	return nil
 }
